@@ -213,7 +213,7 @@ func TestCheck(t *testing.T) {
 		nt, cl := classifyHTTP(c)
 		kHTTP.Check(rt, c, nt, cl...)
 	})
-	rec.Rapid(t, "ws", rec.N(1500, 5000), func(rt *rapid.T) {
+	rec.Rapid(t, "ws", rec.N(1200, 5000), func(rt *rapid.T) {
 		c := genWS(rt)
 		nt, cl := classifyWS(c)
 		kWS.Check(rt, c, nt, cl...)
